@@ -320,6 +320,10 @@ pub const STMT_L54: &[&str] = &[
 ];
 pub const STMT_JIT: &[&str] = &["local x = 1LL", "local x = 1ULL", "local x = 2i", "local x = 0x10LL", "goto l", "::l::"];
 pub const STMT_LUAU: &[&str] = &[
+    // string singleton types written with long brackets (also as indexer of a table type)
+    "type T = { [ [[x]] ]: number }",
+    "type T = { [ [=[x]=] ]: number, [string]: any }",
+    "local x: [[a]] = [[a]]",
     "local x: number = 1",
     "local x: T?, y: U = a, b",
     "x += 1",
